@@ -152,6 +152,10 @@ def run(db, chk) -> None:
     if len(cs) != 1:
         raise AnalysisError("TraceAnalysis.get_temporal_breakdown: delegation call not found")
     b = H.bind_call(f3, cs[0])
+
+    for _p, _src, _v in H.rebinds_of_params(fac, ["visualize"]):
+        chk.ob("C04.R-facade-integrity", f"facade forwards parameter {_p} unmodified", _v == "default-if-none", ta.loc(fac), found=_src, accepted="no re-binding, or `if p is None: p = <default>`",
+               why="`p = p or default` replaces legitimate falsy values (a threshold of 0, an empty selection) by the default")
     chk.ob("C04.R4-facade", "facade passes its trace and its visualize flag to the like-named parameters",
            H.is_self_attr(b.get("t"), "t") and H.name_id(b.get("visualize")) == "visualize", ta.loc(cs[0]),
            found={k: ast.unparse(v) for k, v in b.items()}, accepted={"t": "self.t", "visualize": "visualize"})
